@@ -19,7 +19,7 @@ func init() {
 			"(4) length-prefix acceptance — a decoded string length may be rejected only against the caller's limit or the delivered byte count, never against a constant that excludes 0 (the empty string is a legal value); (5) errors of the underlying read are never swallowed: on the path where the read failed the decoder returns that error (fixed-width decoders with the zero value); (6) ReWrite copies with the builtin copy into the existing unread region (cannot grow or shift it). " +
 			"NOT decided: panics for an invalid ReWrite position, int(uint32) on 32-bit platforms, allocation size for hostile lengths, full round-trip equality over all value sequences (follows from encoding/binary's own round trip plus these pairings).",
 		Assumptions: []string{"encoding/binary and math.Float64bits round-trip", "io.ReadFull's contract"},
-		Floors:      map[string]int{"C10.codec-pair": 22, "C10.sibling": 10, "C10.short-read": 3, "C10.length-prefix": 4, "C10.error-not-swallowed": 20, "C10.rewrite": 1},
+		Floors:      map[string]int{"C10.codec-pair": 25, "C10.sibling": 10, "C10.short-read": 3, "C10.length-prefix": 4, "C10.error-not-swallowed": 20, "C10.rewrite": 1},
 		Run:         runC10,
 	})
 }
@@ -228,6 +228,60 @@ func runC10(c *Ctx) {
 			problems = append(problems, "reader lacks conversion "+p.rConv)
 		}
 		c.check(len(problems) == 0, "C10.codec-pair", "BufferX "+p.name, r.Pos(), strings.Join(ws.prims, ",")+" <-> "+strings.Join(rs.prims, ","), "Write"+p.name+" and Read"+p.name+" do not agree on width / byte order / conversion: "+strings.Join(problems, "; "))
+	}
+	// the in-place rewrite of a 32-bit value uses the encoding ReadU32 decodes
+	if rw := c.mustFn(rel, "(*BufferX).ReWriteU32"); rw != nil {
+		ws := sigOf(rw)
+		var problems []string
+		if ok, miss := hasAll(ws.prims, "littleEndian.PutUint32[4]"); !ok {
+			problems = append(problems, "lacks "+miss+" (has "+strings.Join(ws.prims, ",")+")")
+		}
+		for _, h := range ws.prims {
+			if strings.Contains(h, "Endian.") && h != "littleEndian.PutUint32[4]" {
+				problems = append(problems, "also uses "+h)
+			}
+		}
+		c.check(len(problems) == 0, "C10.codec-pair", "BufferX ReWriteU32", rw.Pos(), "PutUint32 little-endian, 4 bytes", "ReWriteU32 does not write the 4-byte little-endian form that WriteU32 writes and ReadU32 reads: a length or checksum patched in place decodes as another number: "+strings.Join(problems, "; "))
+	}
+	// a new write buffer is empty: bytes pre-allocated for capacity must not be readable content
+	for _, ctor := range []string{"NewBufferX", "NewSizedBufferX"} {
+		fn := c.mustFn(rel, ctor)
+		if fn == nil {
+			continue
+		}
+		traces, _ := c.Trace(fn, TraceConfig{Inline: func(*ssa.Function, int) bool { return false }})
+		good, n := true, 0
+		for _, t := range traces {
+			if t.End != EndReturn {
+				continue
+			}
+			n++
+			var nb *Event
+			reset := false
+			for _, e := range t.Events {
+				if e.Kind == EvCall && e.callName() == "bytes.NewBuffer" {
+					nb = e
+				}
+				if e.Kind == EvCall && e.callName() == "(*bytes.Buffer).Reset" && nb != nil && e.Args[0].Key() == nb.Res.Key() {
+					reset = true
+				}
+			}
+			if nb == nil {
+				continue // built some other way (e.g. new(bytes.Buffer)): empty by construction
+			}
+			empty := false
+			if a := nb.Args[0]; a.isNilConst() {
+				empty = true
+			} else if r := a.root(); r != nil && r.Kind == KAlloc && len(r.Args) == 2 {
+				if k, isK := r.Args[0].intConst(); isK && k == 0 && a.Kind == KAlloc {
+					empty = true // make([]byte, 0, n)
+				}
+			}
+			if !(empty || reset) {
+				good = false
+			}
+		}
+		c.check(good && n > 0, "C10.codec-pair", "bytex."+ctor+" empty", fn.Pos(), "the new buffer has no readable content", ctor+" hands out a buffer whose pre-allocated bytes are readable content: the first reads return those zero bytes instead of the values written")
 	}
 	// bool: writer writes 1/0, reader tests != 0 ; string: length = len(val), exactly that many bytes
 	c.checkBoolString(cfg)
